@@ -98,6 +98,17 @@ def main() -> int:
                       f"variants behaved as expected ({len(selftest['not_applicable'])} not applicable)")
                 for f in selftest["failed"]:
                     print(f"  SELFTEST-MISMATCH {f['name']} expect={f['expect']} exit={f.get('exit')}")
+            from sa import selftest as st2
+            corp = st2.run_patch_corpus(prop, repo_root=ctx.repo.root)
+            ns, nr = len(corp["seeded"]), len(corp["refactors"])
+            print(f"{prop}: kept corpora -- {sum(1 for x in corp['seeded'] if x['exit'] == 1)}/{ns} breaking changes reported, "
+                  f"{sum(1 for x in corp['seeded'] if x['exit'] == 2)} no verdict, {sum(1 for x in corp['seeded'] if x['exit'] == 0)} passed; "
+                  f"{sum(1 for x in corp['refactors'] if x['exit'] == 0)}/{nr} behaviour-preserving changes silent, "
+                  f"{sum(1 for x in corp['refactors'] if x['exit'] == 2)} no verdict, {sum(1 for x in corp['refactors'] if x['exit'] == 1)} reported")
+            for m_ in corp["mismatch"]:
+                print(f"  CORPUS-MISMATCH {m_}")
+            if selftest is not None:
+                selftest["corpus"] = {"seeded": corp["seeded"], "refactors": corp["refactors"], "mismatch": corp["mismatch"]}
         code = report.finish(col, args.tier, t0, selftest=selftest,
                              write=not args.no_evidence)
         if code == 0 and selftest and selftest["failed"] and os.environ.get("VERIF_SELFTEST_STRICT"):
